@@ -6,4 +6,6 @@ MCRefChoices == [n \in {"f", "g", "h"} |->
                      [] n = "h" -> {{"v"}, {}}]
 MCKindChoices == [n \in {"f", "g", "h"} |->
                    CASE n = "f" -> {"mem"} [] n = "g" -> {"mem", "plain"} [] n = "h" -> {"plain"}]
+\* behaviour generation for the replay on real interpreters: changes and observations alternate
+SimNext == IF nev % 2 = 0 THEN Mutate ELSE Observe
 ====
